@@ -6,7 +6,7 @@ from .. import gen, impl, oracle, ser, stream
 
 ID = "C04"
 LEVEL = "proof"
-PROPS_MODULE = "SymmModel.Props.C04"
+PROPS_MODULE = "SymmModel.Props.C04All"
 THEOREMS = [
     "SymmModel.C04.permuted_compose",
     "SymmModel.C04.compose_isPerm",
@@ -26,10 +26,23 @@ THEOREMS = [
     "SymmModel.C04.resolveScan_annihilate_step",
     "SymmModel.C04.resolveScan_annihilate_adjacent",
     "SymmModel.C04.resolveScan_pair",
-    "SymmModel.C04.resolveScan_clash_step"
+    "SymmModel.C04.resolveScan_clash_step",
+    "SymmModel.C04.adm_of_admissible",
+    "SymmModel.C04.tensordotF_structure",
+    "SymmModel.C04.tdotF_axes_perm",
+    "SymmModel.C04.gradedContract_axes_perm",
+    "SymmModel.C04.preT_canonical",
+    "SymmModel.C04.tdotF_pretranspose",
+    "SymmModel.C04.pretranspose_sign_is_transpose_sign",
+    "SymmModel.C04.tdotF_swap",
+    "SymmModel.C04.swap_sign_value",
+    "SymmModel.C04.gradedContract_swap",
+    "SymmModel.C04.mergeOddpos_swap",
+    "SymmModel.C04.assoc_sign_identity",
+    "SymmModel.C04.swap_block_order_differs"
 ]
-LEAN_FILES = ["SymmModel.Props.C04", "SymmModel.Proofs.Oddpos", "SymmModel.Proofs.Koszul"]
-PLANNED = ["S4 tdotF_axes_perm", "S5 tdotF_swap", "S6 several pairs at once = one after another", "S7 tdotF_assoc_canonical", "conjugate-pair annihilation beyond the adjacent case"]
+LEAN_FILES = ["SymmModel.Props.C04", "SymmModel.Proofs.Oddpos", "SymmModel.Proofs.Koszul", "SymmModel.Props.C04b", "SymmModel.Props.C04All", "SymmModel.Proofs.Routes", "SymmModel.Proofs.Routes2", "SymmModel.Proofs.Routes3", "SymmModel.Proofs.Routes4"]
+PLANNED = ["S7 tdotF_assoc (blocked on generalising contractibleB to pruned tables", "sign part assoc_sign_identity and label part oddpos_assoc proved)", "S4-S6 for mode = fused"]
 RULE = ("random networks of 2-4 fermionic tensors (chains, triangles, stars; with and without dangling legs), all "
         "symmetries, random bond orientations, every mix of even/odd charges with distinct labels, sparse, pending "
         "signs; 4 random routes per network differing in contraction order, operand order, axis listing order, "
